@@ -323,7 +323,11 @@ def defaultNext (s : Sim) (v : VehicleId) : Act → Outcome Act
     match s.vehicle? v, s.station? sid with
     | none, _ => .error
     | some _, none => .error
-    | some _, some st => if !st.hasAvailable cid then .error else .ok (.chargingStation sid cid)
+    | some veh, some st =>
+      if !st.hasAvailable cid then .error
+      -- a full vehicle has nothing to charge: it leaves the queue (its turn at the plug would fail)
+      else if env.mechKnown veh.mech && env.isFull veh then .ok (.idle 0)
+      else .ok (.chargingStation sid cid)
   | .dispatchStation sid cid _ =>
     match s.vehicle? v, s.station? sid with
     | none, _ => .error
